@@ -47,7 +47,11 @@ def intersect_halfplanes(halfplanes):
         Points of the polygon.
     """
     # reserve more space than required, there might be duplicates
-    points = np.empty((3 * len(halfplanes), 2))
+    # Coinciding halfplanes (e.g. identical tetrahedra) can produce one valid
+    # intersection point per pair of halfplanes.
+    n_halfplanes = len(halfplanes)
+    points = np.empty((max(3 * n_halfplanes,
+                           n_halfplanes * (n_halfplanes - 1) // 2 + 1), 2))
     n_intersections = 0
     for i in range(len(halfplanes)):
         for j in range(i + 1, len(halfplanes)):
